@@ -5,6 +5,13 @@
 // decided logically with marker frames (the group layer forwards strictly in
 // sequence, so the marker's event arriving first proves the filtered frame
 // did not surface).
+//
+// The binary runs with the timer semantics of a pre-1.23 main module
+// (asynctimerchan=1), which is what the library's own go.mod (go 1.16) selects
+// when it is built as the main module: a stale tick left in a reused timer's
+// channel is visible there and hidden by the newer semantics.
+
+//go:debug asynctimerchan=1
 package main
 
 import (
@@ -344,6 +351,16 @@ func run(rr *mon.Run) {
 				}
 			}
 			ok = checkInbound(e, c, "random L_Data.ind")
+		}
+		// an event after an idle period (no traffic for more than a second) must surface like any other
+		if ok {
+			time.Sleep(1100 * time.Millisecond)
+			for i := 0; i < 3 && ok; i++ {
+				c := gen.LData(rng, spec.McLDataInd)
+				c.Ctrl2 |= 0x80
+				c.TPDU = spec.TPDU{Cmd: uint8(i), Data: []byte{byte(i + 1), 0x55}}
+				ok = checkInbound(e, c, "group indication after 1.1 s of silence")
+			}
 		}
 		// closure: closing the underlying client closes the group channel
 		e.close()
